@@ -280,6 +280,8 @@ class TermDomain(Domain):
             if a == b:
                 return Const(op in ("Eq", "Le", "Ge"))
             return T(op, a, b)
+        if op in ("Div", "Rem"):
+            return T("idiv" if op == "Div" else "irem", a, b)
         return None
 
     def unop(self, op, a):
